@@ -24,3 +24,47 @@ package main
 //@   requires p != nil
 //@   call os.Exit requires @exit-only-with-issues p.foundIssues && arg0 == p.exitCode
 //@   ensures @returns-only-without-issues !old(p.foundIssues) && result == nil
+
+// ---- C06: checker selection in the command-line front-end
+
+//@ func (*program).initCheckers$1
+//@   prop C06
+//@   requires byName != nil && byTag != nil && byName != byTag
+//@   assigns mapof(byName), mapof(byTag)
+//@   ensures @names forall x string :: byName[x] <==> (old(byName[x]) || (exists k int :: 0 <= k && k < len(keys) && keys[k] == x && !hasPrefix(x, "#")))
+//@   ensures @tags forall t string :: byTag[t] <==> (old(byTag[t]) || (exists k int :: 0 <= k && k < len(keys) && keys[k] == "#" ++ t))
+//@   loop 1 invariant @names-prefix forall x string :: byName[x] <==> (old(byName[x]) || (exists k int :: 0 <= k && k < $i && keys[k] == x && !hasPrefix(x, "#")))
+//@   loop 1 invariant @tags-prefix forall t string :: byTag[t] <==> (old(byTag[t]) || (exists k int :: 0 <= k && k < $i && keys[k] == "#" ++ t))
+
+//@ func (*program).initCheckers$2
+//@   prop C06
+//@   pure
+//@   requires info != nil
+//@   ensures @enabled-by-tag result <==> (exists j int :: 0 <= j && j < len(info.Tags) && enabledTags[info.Tags[j]])
+//@   loop 1 invariant @none-so-far forall j int :: (0 <= j && j < $i) ==> !enabledTags[info.Tags[j]]
+
+//@ func (*program).initCheckers$3
+//@   prop C06
+//@   pure
+//@   requires wfInfo(info)
+//@   ensures @disabled-by-tag (result != "") <==> (exists j int :: 0 <= j && j < len(info.Tags) && disabledTags[info.Tags[j]])
+//@   loop 1 invariant @none-so-far forall j int :: (0 <= j && j < $i) ==> !disabledTags[info.Tags[j]]
+
+//@ func (*program).initCheckers
+//@   prop C06 C19
+//@   requires p != nil && p.checkers == nil
+//@   requires @registry-wf forall k int :: (0 <= k && k < len(p.infoList)) ==> wfInfo(p.infoList[k])
+//@   assigns p.checkers
+//@   call linter.NewChecker requires @constructed-only-if-selected selectedS(arg1, p.filters.enableAll, p.filters.enable, p.filters.disable)
+//@   ensures @selected-only result == nil ==> (forall m int :: (0 <= m && m < len(p.checkers)) ==> (p.checkers[m] != nil && (exists k int :: 0 <= k && k < len(p.infoList) && p.infoList[k] == p.checkers[m].Info && selectedS(p.infoList[k], p.filters.enableAll, p.filters.enable, p.filters.disable))))
+//@   ensures @all-selected result == nil ==> (forall k int :: (0 <= k && k < len(p.infoList) && selectedS(p.infoList[k], p.filters.enableAll, p.filters.enable, p.filters.disable)) ==> (exists m int :: 0 <= m && m < len(p.checkers) && p.checkers[m] != nil && p.checkers[m].Info == p.infoList[k]))
+//@   ensures @empty-selection-is-error len(p.checkers) == 0 ==> result != nil
+//@   loop 1 invariant @fresh-checkers p.checkers == nil || fresh(p.checkers)
+//@   loop 1 invariant @selected-only-prefix forall m int :: (0 <= m && m < len(p.checkers)) ==> (p.checkers[m] != nil && fresh(p.checkers[m]) && (exists k int :: 0 <= k && k < $i && p.infoList[k] == p.checkers[m].Info && selectedS(p.infoList[k], p.filters.enableAll, p.filters.enable, p.filters.disable)))
+//@   loop 1 invariant @all-selected-prefix forall k int :: (0 <= k && k < $i && selectedS(p.infoList[k], p.filters.enableAll, p.filters.enable, p.filters.disable)) ==> (exists m int :: 0 <= m && m < len(p.checkers) && p.checkers[m] != nil && p.checkers[m].Info == p.infoList[k])
+
+// ---- C19: configuration errors
+
+//@ func (*program).loadProgram
+//@   prop C19
+//@   requires p != nil
